@@ -10,7 +10,7 @@ import numpy as np
 
 from .. import nncommon as nc
 from .. import tracecommon as tcm
-from ..core import MachineryFailure
+from ..core import MachineryFailure, mix
 
 
 def cfg_text(kinds, letters=(0, 1), maxlen=2, maxm=2, maxmb=1, weights="W12", mutations=(), invs=(), emit=True):
@@ -149,6 +149,13 @@ def make_sessions(ctx, n):
             else:
                 letters = ctx.rng.choice(["AC", "ACDE", nc.AA])
                 X = ["".join(ctx.rng.choice(letters) for _ in range(ctx.rng.randint(0, 40))) for _ in range(ctx.rng.randint(2, 5))]
+                if mix(sid) % 3 == 0:
+                    # short and long strings interleaved, lengths around the machine-word sizes of bit-parallel implementations
+                    X = ["".join(ctx.rng.choice(letters) for _ in range(ctx.rng.choice([3, 20, 63, 64, 65, 90, 129]))) for _ in range(ctx.rng.randint(3, 6))]
+                    if not (any(len(x) > 64 for x in X) and any(len(x) <= 64 for x in X)):
+                        X[0], X[-1] = X[0][:10] + "A" * 70, X[-1][:12]
+                    if len(X[0]) <= 64:
+                        X = X[::-1] if len(X[-1]) > 64 else [X[0] * 30] + X          # a long one first, short ones after it
                 amap = {c: i for i, c in enumerate(nc.AA)}
                 if kind == "Matrix":
                     Y = [nc.mutate(ctx.rng, ctx.rng.choice(X), ctx.rng.randint(0, 6), letters) for _ in range(ctx.rng.randint(1, 7))]      # few x many and many x few
